@@ -1,13 +1,13 @@
 /-
 C07 — uniqueness of the emitted keys on the trees histories reach (top module of the property).
 
-* `tree_keys_nodup_histories_partial` / `tree_keys_nodup_noArray_histories_partial`: after every
+* `tree_keys_nodup_histories_partial` / `tree_nodup_noArray_hist_partial`: after every
   step of every history from any construction route, keys of the structural walk are pairwise
   distinct — under the decidable checks `distinctNames` and `arrLe1T` / `noArrayT` of the state
   REACHED and a `SepSafe` separator;
 * `code_keys_nodup_histories_partial`: the same for the LITERAL code rendering `flattenCode`
   (adds C08's hypotheses `swf`, `HistOK`, and the walk bound);
-* `distinctNames_not_invariant`, `tree_keys_nodup_histories_full_fails`: `distinctNames` cannot be
+* `distinctNames_not_invariant`, `tree_keys_nodup_full_fails`: `distinctNames` cannot be
   dropped and is not preserved — two renamed instances assigned to two keys of a SparseDict (the
   KF-C10-a / KF-C13-c state) flatten under ONE key;
 * `sepSafe_single_char_tree`: one-character separators that occur in no name of the tree.
@@ -30,7 +30,7 @@ theorem tree_keys_nodup_histories_partial {env : Flatland.Flat.Env} (sc : Schema
   tree_keys_nodup_arrLe1 sep _ hsafe (Inv.hrun_dp_prefix hs s hops (constructed_dps hc) k) hd ha
 
 /-- **U1 after every step**: no Array / MultiValue in the tree reached ⇒ keys pairwise distinct -/
-theorem tree_keys_nodup_noArray_histories_partial {env : Flatland.Flat.Env} (sc : Schema) (s : HState)
+theorem tree_nodup_noArray_hist_partial {env : Flatland.Flat.Env} (sc : Schema) (s : HState)
     (hc : Constructed sc s) (sep : Str) (hs : List HOp) (hops : ∀ h ∈ hs, Inv.OpArgsDP h.op) (k : Nat)
     (hd : distinctNames (hrun s (hs.take k)).root = true) (hna : noArrayT (hrun s (hs.take k)).root = true)
     (hsafe : SepSafe env sep (TokT (hrun s (hs.take k)).root)) :
@@ -95,7 +95,7 @@ theorem exC_sepSafe (k : Nat) (hk : k ≤ 4) :
 /-- after the third call (two Dicts in the List): structural walk and code rendering emit pairwise
     distinct keys -/
 example : ((flattenTree ['_'] (hrun exC0 (exCHist.take 3)).root).map Prod.fst).Nodup :=
-  tree_keys_nodup_noArray_histories_partial _ exC0 exC0_constructed ['_'] exCHist exCHist_dp 3
+  tree_nodup_noArray_hist_partial _ exC0 exC0_constructed ['_'] exCHist exCHist_dp 3
     (by decide) (by decide) (exC_sepSafe 3 (by omega))
 
 example (pool : List Node) :
@@ -159,7 +159,7 @@ def Tree_Keys_Nodup_Histories_Full : Prop :=
       ((flattenTree sep (hrun s hs).root).map Prod.fst).Nodup
 
 /-- … and refuted -/
-theorem tree_keys_nodup_histories_full_fails : ¬ Tree_Keys_Nodup_Histories_Full := by
+theorem tree_keys_nodup_full_fails : ¬ Tree_Keys_Nodup_Histories_Full := by
   intro h
   have hsafe : SepSafe Flatland.Flat.Proofs.exEnv01 ['_'] (TokT (hrun exR0 exRHist).root) := by
     apply sepSafe_single_char_tree _ Flatland.Flat.Proofs.exEnvOK _ '_' (by decide)
